@@ -81,6 +81,38 @@ func CheckApi(sc *Scenario, out *ApiRunOut, res *RunResult) {
 			if r.T < c.T0 {
 				res.addViolation("C14", "result_before_start", fmt.Sprintf("result at t=%dus precedes its start at t=%dus", r.T/1000, c.T0/1000))
 			}
+			// every result needs a cause: a stop request, the search's own
+			// timer, a limit it can reach by itself (depth, nodes, mate), or a
+			// root that is answered at once. A time-controlled search (also a
+			// ponder search after ponderhit) that ends without any of these
+			// was ended by something that does not belong to it.
+			if c.Limits != nil && c.Root != nil {
+				l := c.Limits
+				selfEnding := l.Depth > 0 || l.Nodes > 0 || l.Mate > 0
+				quickRoot := len(c.Root.LegalMoves()) <= 1 || rootExcluded(c.Root)
+				stopped := false
+				for j := a.call + 1; j < len(out.Calls); j++ {
+					o := out.Calls[j]
+					if o.T0 > r.T {
+						break
+					}
+					if o.Op == "stop" || o.Op == "newgame" || o.Op == "final_stop" {
+						stopped = true
+					}
+				}
+				gen := r.Gen
+				fired := gen < len(out.Sim.FiredGen) && out.Sim.FiredGen[gen]
+				deep := false
+				for _, it := range out.Iter {
+					if it.Gen == gen && it.Depth >= 100 {
+						deep = true // ran out of depth by itself (forced mates make deep iterations free)
+					}
+				}
+				if !selfEnding && !quickRoot && !stopped && !fired && !deep && (l.TimeControlled() || l.needsStop()) {
+					res.addViolation("C14", "result_without_cause", fmt.Sprintf("search on %s (%+v) delivered its result at t=%dus although no stop was requested, its own timer did not fire and it has no limit it could reach by itself", c.Root.Fen(), *l, r.T/1000))
+				}
+				res.count("result_causes_checked", 1)
+			}
 			// premature end of infinite / ponder searches
 			if c.Limits != nil && c.Limits.needsStop() {
 				var enderT int64 = -1
